@@ -440,6 +440,28 @@ int main(int argc, char** argv) {
         else if (!strcmp(w2, "join"))    HC_TRY(join(alien));
         else { fprintf(stderr, "unknown bad op %s\n", what); return 9; }
       }
+      else if ((!strcmp(what, "sort_mixed") || !strcmp(what, "sort_perm")) && isT && L >= 3) {
+        /* a sort whose comparison raises part-way (an element of another type in the last place): the exception is the documented
+           one; what the Tuple holds afterwards is classified - untouched / the same items in another order / not the same items.
+           sort_mixed (C12) asks for untouched, sort_perm (C04: "sort leaves a permutation of the previous contents") for the same items */
+        struct Tuple* tp = c; var saved[64]; var odd = etk == VT_STR ? $I(7) : $S("x");
+        if (L > 64) { fprintf(stderr, "sort_mixed: Tuple too long\n"); return 9; }
+        for (long long k = 0; k < L; k++) saved[k] = tp->items[k];
+        tp->items[L - 1] = odd;
+        HC_TRY(sort(c));
+        int same = 1, perm = 1; char used[64] = {0};
+        for (long long k = 0; k < L; k++) {
+          var want = k == L - 1 ? odd : saved[k];
+          if (tp->items[k] != want) same = 0;
+          int hit = 0;
+          for (long long j = 0; j < L && !hit; j++) if (!used[j] && tp->items[j] == want) { used[j] = 1; hit = 1; }
+          if (!hit) perm = 0;
+        }
+        if (tp->items[L] != Terminal) perm = 0;
+        for (long long k = 0; k < L; k++) tp->items[k] = saved[k];
+        static char cls[96];
+        if (!perm || (!same && !strcmp(what, "sort_mixed"))) { snprintf(cls, sizeof cls, "%s:%s", perm ? "reordered" : "items-changed", hc_exc); hc_exc = cls; }
+      }
       else if (!strncmp(what, "stack_", 6) && isT) {
         /* the Tuple as a STACK object (what tuple(...) and $(Tuple, ...) make: the header says so): every operation that would
            have to reallocate its items is refused with ValueError - and has not touched the items when it says so */
